@@ -723,7 +723,7 @@ theorem strided_conv_misaligned_witness :
     (`sparseFilter`: size `(k - 1) * sc + 1`, the original taps at the multiples of `sc`, neutral taps between them), for every
     position, stride, padding and both axes independently. "Neutral" means zero-point-corrected value 0, i.e. the *raw*
     inserted value must be the zero point of the weights — the unrepaired code inserts raw 0 (known finding
-    `software-dilation:inserted-taps-zero-instead-of-weight-zero-point`, patch C01-19). -/
+    `software-dilation:inserted-taps-zero-instead-of-weight-zero-point`, patch C01-24). -/
 theorem dilation_fold_eq (H W C kh kw sch scw hwh hww : Nat) (hkh : 0 < kh) (hkw : 0 < kw) (hsch : 0 < sch) (hscw : 0 < scw)
     (ifm wgt : Nat → Nat → Nat → Int) (sy sx pt pl : Nat) (inOff : Int) (oy ox : Nat) :
     convAcc H W C ifm kh kw wgt sy sx (hwh * sch) (hww * scw) pt pl inOff oy ox =
